@@ -152,7 +152,8 @@ package ratelimitmw
 //@ func (*Middleware).location
 //@   property C05
 //@   requires MW(mw) && req != nil && ecsOptsNonNil(req)
-//@   modifies nothing
+//@   modifies ecsBad, ecsDataErrs
+//@   ensures a-malformed-option-is-an-error: ecsBad == (err != nil)
 //@   ensures only-a-malformed-option-is-an-error: err != nil ==> errAs(err, ptrtag(dnsmsg.BadECSError)) && ecs == nil
 //@   ensures err == nil && ecs != nil ==> fresh(ecs) && ecs.Subnet != zero(netip.Prefix)
 
@@ -169,9 +170,10 @@ package ratelimitmw
 //@ func (*Middleware).Wrap$1
 //@   property C10 C03 C05
 //@   requires MW(mw) && next != nil && rw != nil && req != nil && ecsOptsNonNil(req)
+//@   atcall newRequestInfo assert a-malformed-subnet-option-goes-no-further: !ecsBad
 //@   atcall processLocationErr assert only-a-malformed-subnet-option-ends-here: errAs(err, ptrtag(dnsmsg.BadECSError))
 //@   modifies heap, rlDrop, rlAllow, rlErr, rlCounted, prlResult, prlCounted, chas, cval, rk, rlog, served, servedReq, servedRW, servedErr,
-//@            writes, wroteReq, wroteResp, wroteId, wroteRcode, wroteNQ, wroteQ, truncSize, rlStage, accessChecks, lastAccessBlocked
+//@            writes, wroteReq, wroteResp, wroteId, wroteRcode, wroteNQ, wroteQ, truncSize, rlStage, accessChecks, lastAccessBlocked, ecsBad, ecsDataErrs
 //@   ensures accessChecks <= old(accessChecks) + 1 && rlStage <= old(rlStage) + 1
 //@   ensures access-blocked-dropped-silently: accessChecks == old(accessChecks) + 1 && lastAccessBlocked ==> err == nil &&
 //@             rlStage == old(rlStage) && (forall w dnsserver.ResponseWriter :: writes[w] == old(writes[w])) &&
